@@ -356,24 +356,29 @@ def h_recv_push_refused():
         with h2h.native():
             f.data = models.parse_frames(wire)[0].data
         out = models.Out(c)
+        stale = s_le(pid, Hin)
         try:
             evs = h2h.deliver(c, [f])
         except h2.exceptions.ProtocolError as e:
             note('conn-error')
-            check(s_le(pid, Hin), 'racing-push-with-fresh-id-is-connection-error', (pid, Hin))
+            check(stale, 'racing-push-with-fresh-id-is-connection-error', (pid, Hin))
+            # a promised id that is not idle is classified like any reuse of a stream id
+            _error_class(c, out, [], e, cb, stale, 'stale-push', pid)
+            check(c.highest_inbound_stream_id == Hin, 'mark-moved-by-stale-refused-push', None)
             return
-        note('refused')
         check(len(evs) == 0, 'refused-push-events', h2h.ev_names(evs))
-        fr = out.frames()
-        check(len(fr) == 1 and isinstance(fr[0], hf.RstStreamFrame) and
-              fr[0].stream_id == pid and fr[0].error_code == ErrorCodes.REFUSED_STREAM,
-              'refused-push-rst-frame', [h2h.frame_sig(x) for x in fr])
         if s_lt(Hin, pid):
+            note('refused')
             note('fresh')
+            fr = out.frames()
+            check(len(fr) == 1 and isinstance(fr[0], hf.RstStreamFrame) and
+                  fr[0].stream_id == pid and fr[0].error_code == ErrorCodes.REFUSED_STREAM,
+                  'refused-push-rst-frame', [h2h.frame_sig(x) for x in fr])
             check(c.highest_inbound_stream_id == pid, 'mark-not-advanced-by-refused-push',
                   (c.highest_inbound_stream_id, pid))
         else:
             note('stale')
+            _error_class(c, out, evs, None, cb, stale, 'stale-push', pid)
             check(c.highest_inbound_stream_id == Hin, 'mark-moved-by-stale-refused-push', None)
     return h
 
